@@ -36,7 +36,9 @@ m = {
         {"name": "primsim", "path": "/verif/primsim", "serves_properties": sorted(p for p in PROPS if PROPS[p]["engine"] == "primsim"),
          "kind_free_text": "controlled scheduler: every task parks at verif schedule points inside a synctest bubble; a seeded (uniform or PCT) scheduler releases one task per step; histories checked by interval oracles and porcupine"},
         {"name": "netsim", "path": "/verif/netsim", "serves_properties": sorted(p for p in PROPS if PROPS[p]["engine"] == "netsim"),
-         "kind_free_text": "discrete-event simulation of one or two real stacks over an in-memory wire with seeded drop/dup/reorder/delay/replay faults, fake clock (testing/synctest), seeded timer ties (runtime overlay), scripted raw peer with an independent codec"},
+         "kind_free_text": "discrete-event simulation of one or two real stacks over an in-memory wire with seeded drop/dup/reorder/delay/replay faults and link write errors, fake clock (testing/synctest), seeded timer ties, map iteration and select order (runtime overlay), scripted raw peer with an independent codec"},
+        {"name": "netsimx", "path": "/verif/netsim (second build)", "serves_properties": sorted(p for p in PROPS if any("netsimx:" in v for t in ("quick", "thorough") for v in (PROPS[p].get(t) or {}).get("variants") or [])),
+         "kind_free_text": "the netsim package compiled against /repo's working tree instrumented at build time by tools/autoyield: a seeded schedule point (runtime.Gosched, recorded on the run's tape) before every statement of the stack that synchronises; used by a share of the workers of the properties listed"},
     ],
     "checks": checks,
     "not_applicable": na,
